@@ -60,6 +60,7 @@ type Grammar struct {
 	SharedMemo []bool // build S<i> as Memoize(body)
 	Root       *Expr
 	Named      bool // every Any/Choice carries .Name("alt<ID>")
+	NamedSeq   bool // ... and every sequence-family combinator as well (Sequence.Name)
 	nodes      []*Expr
 }
 
@@ -138,6 +139,9 @@ func (g *Grammar) String() string {
 	if g.Named {
 		parts = append(parts, "named")
 	}
+	if g.NamedSeq {
+		parts = append(parts, "namedseq")
+	}
 	return strings.Join(parts, "; ")
 }
 
@@ -151,6 +155,10 @@ func Parse(s string) (*Grammar, error) {
 		}
 		if part == "named" {
 			g.Named = true
+			continue
+		}
+		if part == "namedseq" {
+			g.NamedSeq = true
 			continue
 		}
 		eq := strings.IndexByte(part, '=')
